@@ -170,7 +170,7 @@ def sv_setup(ctx):
     env = {"self": self, "cfg": cfg, "path": z3.String("path"), "format": z3.String("format"), "skip_none": True, "skip_validation": skip_validation,
            "overwrite": overwrite, "multifile": multifile, "branch": None, "kwargs": {}}
     consts = {"fsspec_support": False, "ArgumentParser.save": Rec("function")}
-    return Setup(env=env, calls=calls, cms=cms, consts=consts, loops=loops, data={"multifile": multifile})
+    return Setup(env=env, calls=calls, cms=cms, consts=consts, loops=loops, data={"multifile": multifile, "overwrite": overwrite, "fs_isfile": fs_isfile})
 
 
 def sv_post(ctx, st, result):
@@ -180,6 +180,11 @@ def sv_post(ctx, st, result):
 
 def sv_raises(ctx, st, exc):
     mf = "multi" if st.data["multifile"] else "single"
+    if ctx.ghost.get("fc"):
+        # the main target is the first path save asks to be creatable; when it exists and overwrite is off the save is refused as a whole: no sub-file either
+        main = ctx.ghost["fc"][0]
+        ctx.oblige("proto", f"all-or-nothing[{mf}]:an-existing-main-target-without-overwrite=>nothing-was-opened-for-writing(the refusal comes before the sub-files)",
+                   z3.Implies(z3.And(z3.Not(st.data["overwrite"]), st.data["fs_isfile"](main)), z3.BoolVal(len(ctx.ghost["opened"]) == 0)))
     if exc.origin in ("dump", "validate", "serialise"):
         ctx.oblige("proto", f"all-or-nothing[{mf}]:failure-in-{exc.origin}=>no-file-opened-for-writing", z3.And(z3.BoolVal(len(ctx.ghost["opened"]) == 0), z3.Not(lift(ctx.ghost["opened_before"]))))
     elif exc.origin in ("Path()", "check_valid_dump_format", "get_content") or exc.origin.startswith("raise@"):
